@@ -321,3 +321,56 @@ def mgr_family(ctx, prefixes, families, nontrivial, quick_n=3000, model_roles=("
                                       len(s["net"]), len(s["tr"])))
         for c in list(idx.values())[:1]:
             ctx.sample({"kind": "mgr-history", "case": c["case"], "steps": [(s["stim"]["kind"], s["stim"]["msg"]["kind"], s["ret"], s["t"]["post"]["status"]) for s in c["steps"]]})
+
+
+# ---------------------------------------------------------------------------------------------------------
+# trace validation of the repository's own test suite (hook in channels.dispatch, build tag verif)
+# ---------------------------------------------------------------------------------------------------------
+def repo_suite_traces(ctx, prefixes, packages=("./channels/...", "./impl/...", "./itest/...", "./channelmonitor/...")):
+    import subprocess, glob, collections
+    tdir = ctx.path("suite-traces")
+    os.makedirs(tdir, exist_ok=True)
+    env = vlib.go_env({"VERIF_TRACE": tdir, "TMPDIR": ctx.scratch, "GOLOG_LOG_LEVEL": "fatal"})
+    cmd = [vlib.GO, "test", "-tags", "verif", "-count=1", "-vet=off", "-timeout", "20m"] + list(packages)
+    try:
+        r = subprocess.run(cmd, cwd=vlib.REPO, env=env, stdout=subprocess.PIPE, stderr=subprocess.STDOUT, text=True, timeout=1500)
+    except subprocess.TimeoutExpired:
+        raise Inconclusive("repository suite (with -tags verif) timed out")
+    if "[build failed]" in r.stdout or "cannot find package" in r.stdout:
+        raise Inconclusive("repository suite does not build with -tags verif:\n" + r.stdout[-2000:])
+    groups = collections.OrderedDict()
+    nlines = 0
+    for f in sorted(glob.glob(os.path.join(tdir, "trace-*.ndjson"))):
+        for l in vlib.read_ndjson(f):
+            nlines += 1
+            groups.setdefault("%s:%s:%s:%s" % (l["pid"], l.get("inst", ""), l["self"][-6:], l["chid"]), []).append(l)
+    if nlines == 0:
+        raise Inconclusive("the hook recorded nothing (is the verif hook still in channels.dispatch?)")
+    cases = []
+    for k, ls in groups.items():
+        ls.sort(key=lambda x: x["seq"])
+        if len(ls) >= 2:
+            cases.append({"case": k, "lines": ls})
+    cp = ctx.path("suite-cases.ndjson")
+    vlib.write_ndjson(cp, cases)
+    n, verdicts = judge(ctx, cp, module="TraceJudge")
+    byc = {c["case"]: c for c in cases}
+    for v in verdicts:
+        if v["rule"] == "conf":
+            ctx.drift.append({"case": v["case"], "i": v["i"], "status": v["status"], "op": v["op"], "note": "announced transition differs from FSM.tla (repository-suite trace)"})
+            continue
+        if not any(v["rule"].startswith(p) for p in prefixes):
+            continue
+        c = byc[v["case"]]
+        ctx.violation({"rule": v["rule"], "status": v["status"], "op": v["op"], "src": "repo-suite-trace"},
+                      "%s violated by a transition the repository's own tests executed: %s --%s--> %s" % (v["rule"], v["status"], v["op"], c["lines"][v["i"] - 1]["status"]),
+                      detail={"verdict": v, "prev": c["lines"][v["i"] - 2], "next": c["lines"][v["i"] - 1]})
+    pairs = sum(len(c["lines"]) - 1 for c in cases)
+    ctx.traces += len(cases)
+    ctx.evaluations += pairs
+    for c in cases:
+        for i in range(1, len(c["lines"])):
+            ctx.distinct.add(("suite", c["lines"][i - 1]["status"], c["lines"][i]["ev"]))
+    ctx.extra["repo_suite_trace"] = {"channels": len(cases), "transitions": pairs, "suite_exit": r.returncode}
+    ctx.assumptions.append("repository-suite traces: the hook in channels.dispatch records announced events; test failures of the (timing-sensitive) suite itself are not verdicts")
+    return len(cases), pairs
